@@ -339,7 +339,7 @@ func compileLambda(e b6.Expression, c *compilation) (*lambdaCall, error) {
 		Done:       func(entrypoint int) { l.pc = entrypoint },
 	}
 	for _, s := range lambda.Args {
-		if c.NumArgs > MaxArgs {
+		if c.NumArgs >= MaxArgs {
 			return nil, fmt.Errorf("Can't use more than %d args", MaxArgs)
 		}
 		f.Bind(s, c.NumArgs)
@@ -501,6 +501,9 @@ func (v *VM) execute(context *Context) error {
 }
 
 func (v *VM) CallWithArgsAndExpressions(context *Context, c Callable, args []StackFrame) (interface{}, error) {
+	if len(args) > MaxArgs {
+		return nil, fmt.Errorf("Can't use more than %d args", MaxArgs)
+	}
 	l := len(v.Stack)
 	v.Stack = append(v.Stack, args...)
 
@@ -522,6 +525,9 @@ func (v *VM) CallWithArgsAndExpressions(context *Context, c Callable, args []Sta
 }
 
 func (v *VM) CallWithArgs(context *Context, c Callable, args []interface{}) (interface{}, error) {
+	if len(args) > MaxArgs {
+		return nil, fmt.Errorf("Can't use more than %d args", MaxArgs)
+	}
 	var frames [MaxArgs]StackFrame
 	for i, arg := range args {
 		literal, err := b6.FromLiteral(arg)
